@@ -475,6 +475,7 @@ def applyParam (s : State) (key val : String) : State :=
 /-- A message handler: `none` = error result or panic (the cache is discarded). -/
 def handle (s : State) : Msg → Option State
   | .stake k amt =>
+    if (s.keys.lookup k).isNone then none else   -- the message carries a real public key
     let a := keyAddr s k
     let v := (aget s.vals a).getD { status := 0, jailed := false, tokens := 0, unstake := 0 }
     if v.status != 0 then none
@@ -563,7 +564,7 @@ def anteOK (s : State) (t : Tx) (simulate : Bool) : Bool :=
   -- memo
   (t.memoEff : Int) ≤ s.p.maxMemo &&
   -- key: from the signature, else from the signer's account (genesis accounts carry their key)
-  (let verif? : Option Addr := if t.pk then some (keyAddr s t.signer)
+  (let verif? : Option Addr := if t.pk then s.keys.lookup t.signer
       else if s.keys.any (·.2 == signer) then some signer else none
    match verif? with
    | none => false
@@ -590,6 +591,45 @@ def runTx (s : State) (mode : Mode) (t : Tx) : State × Bool :=
       match handle afterAnte t.msg with
       | some s' => (s', true)
       | none => (afterAnte, false)
+
+/-! ### genesis -/
+
+structure Genesis where
+  accs : List (Addr × Int)       -- funded accounts (each carries its key)
+  vals : List (Addr × Int)       -- staked validators with their stake
+  p : Params
+  daoTokens : Int
+  daoOwner : Addr
+  aclOwner : Addr
+  paramNames : List String
+  pool : Addr
+  feeAcc : Addr
+  posAcc : Addr
+  daoAcc : Addr
+  keys : List (Nat × Addr)
+  defaultMaxVals : Int
+
+/-- `InitChain`: auth genesis (accounts, explicit supply), pos genesis (validators staked and
+indexed, signing infos from height 0, pool funded with the stake, first validator-set update
+computed with the default `MaxValidators`), gov genesis (ACL, DAO tokens minted). -/
+def genesis (g : Genesis) : State × List (Addr × Int) :=
+  let s0 : State := {
+    bal := [], supply := 0, vals := [], idx := [], prev := [], prevTot := 0, queue := [], sign := [], missedBits := [],
+    awards := [], burns := [], proposer := "", rel := [], p := g.p,
+    acl := g.paramNames.map (fun n => (n, g.aclOwner)), daoOwner := g.daoOwner,
+    pool := g.pool, feeAcc := g.feeAcc, posAcc := g.posAcc, daoAcc := g.daoAcc,
+    keys := g.keys, height := 0, time := 0, cHeight := 0, cTime := 0 }
+  let s1 := g.accs.foldl (fun st e => { setBal st e.1 e.2 with supply := st.supply + e.2 }) s0
+  let s2 := g.vals.foldl (fun st e =>
+    let v : Val := { status := 2, jailed := false, tokens := e.2, unstake := 0 }
+    let st1 := setStaked (setVal st e.1 v) e.1 v
+    let st2 := { st1 with sign := aset st1.sign e.1 { start := 0, offset := 0, missed := 0, jailedUntil := 0, tomb := false },
+                          rel := e.1 :: st1.rel, supply := st1.supply + e.2 }
+    setBal st2 st2.pool (balOf st2 st2.pool + e.2)) s1
+  let s3 := mint s2 s2.daoAcc g.daoTokens
+  match updateValidators { s3 with p := { s3.p with maxVals := g.defaultMaxVals } } with
+  | some (s4, ups) => ({ s4 with p := g.p }, ups)
+  | none => (s3, [])
 
 /-! ### the operation alphabet of the line protocol -/
 
